@@ -100,7 +100,7 @@ type parentCtx struct {
 }
 
 func (pc *parentCtx) binFor(flavour string) string {
-	return filepath.Join(pc.verifDir, "bin", "vcheck_"+flavour)
+	return filepath.Join(pc.verifDir, "bin", "vcheck_"+BaseFlavour(flavour))
 }
 
 // spawn runs one child; returns exit code (-1 for signal/timeout), timedOut.
@@ -121,9 +121,9 @@ func (pc *parentCtx) spawn(flavour string, only *CaseRef, logPath string, limit 
 	cmd.Stdout, cmd.Stderr = lf, lf
 	env := os.Environ()
 	if strings.HasPrefix(flavour, "race") {
-		env = append(env, "GORACE=halt_on_error=0 history_size=3 log_path="+filepath.Join(pc.workDir, "racelog."+flavour))
+		env = append(env, "GORACE=halt_on_error=0 history_size=3 log_path="+filepath.Join(pc.workDir, "racelog."+strings.ReplaceAll(flavour, "#", "_")))
 	}
-	if flavour == "asan" {
+	if BaseFlavour(flavour) == "asan" {
 		env = append(env, "ASAN_OPTIONS=detect_leaks=0")
 	}
 	env = append(env, "GOTRACEBACK=all")
